@@ -119,6 +119,7 @@ fn check1(backend: &str, f: &Fn1, x: f32, r: &mut Report, maxerr: Option<&String
 fn finite(x: f32) -> bool { x.is_finite() }
 fn lt63(x: f32) -> bool { x.is_finite() && x.abs() < 9.2e18 }
 fn lt31(x: f32) -> bool { x.is_finite() && x.abs() < 2147483648.0 }
+fn pos_finite(x: f32) -> bool { x.is_finite() && x > 0.0 }
 fn pos_normal(x: f32) -> bool { x.is_normal() && x > 0.0 && x < 1e37 }
 fn pos_normal_or_zero(x: f32) -> bool { x == 0.0 || pos_normal(x) }
 fn nonneg(x: f32) -> bool { x.is_finite() && x >= 0.0 && (x == 0.0 || x.is_normal()) }
@@ -143,7 +144,7 @@ fn fallback_fns() -> Vec<Fn1> {
         Fn1 { name: "floor", f: fb::floor, r: rfloor, dom: finite, b: Bound::Exact, dom_txt: "all finite" },
         Fn1 { name: "abs", f: fb::abs, r: rabs, dom: finite, b: Bound::Exact, dom_txt: "all finite" },
         // fast inverse square root + 1 Newton step: measured 1.76e-3 rel
-        Fn1 { name: "recip_sqrt", f: fb::recip_sqrt, r: rrsqrt, dom: pos_normal, b: Bound::Rel(2.7e-3), dom_txt: "positive normal x < 1e37" },
+        Fn1 { name: "recip_sqrt", f: fb::recip_sqrt, r: rrsqrt, dom: pos_finite, b: Bound::Rel(2.7e-3), dom_txt: "positive, subnormal included" },
     ]
 }
 
@@ -154,7 +155,7 @@ fn libm_fns() -> Vec<Fn1> {
         Fn1 { name: "floor", f: lm::floor, r: rfloor, dom: finite, b: Bound::Exact, dom_txt: "all finite" },
         Fn1 { name: "abs", f: lm::abs, r: rabs, dom: finite, b: Bound::Exact, dom_txt: "all finite" },
         Fn1 { name: "sqrt", f: lm::sqrt, r: rsqrt, dom: nonneg, b: Bound::Ulps(1), dom_txt: "x >= 0 normal" },
-        Fn1 { name: "recip_sqrt", f: lm::recip_sqrt, r: rrsqrt, dom: pos_normal, b: Bound::Ulps(4), dom_txt: "positive normal" },
+        Fn1 { name: "recip_sqrt", f: lm::recip_sqrt, r: rrsqrt, dom: pos_finite, b: Bound::Ulps(4), dom_txt: "positive, subnormal included" },
         Fn1 { name: "sin", f: lm::sin, r: rsin, dom: finite, b: Bound::Ulps(4), dom_txt: "all finite" },
         Fn1 { name: "cos", f: lm::cos, r: rcos, dom: finite, b: Bound::Ulps(4), dom_txt: "all finite" },
         Fn1 { name: "tan", f: lm::tan, r: rtan, dom: finite, b: Bound::Ulps(4), dom_txt: "all finite" },
@@ -172,7 +173,7 @@ fn mm_fns() -> Vec<Fn1> {
         Fn1 { name: "abs", f: mm::abs, r: rabs, dom: finite, b: Bound::Exact, dom_txt: "all finite" },
         // bit-trick sqrt + 1 Newton step: measured below
         Fn1 { name: "sqrt", f: mm::sqrt, r: rsqrt, dom: pos_normal_or_zero, b: Bound::Rel(2.5e-3), dom_txt: "positive normal, and +-0 (abs 1e-9)" },
-        Fn1 { name: "recip_sqrt", f: mm::recip_sqrt, r: rrsqrt, dom: pos_normal, b: Bound::Rel(2.7e-3), dom_txt: "positive normal" },
+        Fn1 { name: "recip_sqrt", f: mm::recip_sqrt, r: rrsqrt, dom: pos_finite, b: Bound::Rel(2.7e-3), dom_txt: "positive, subnormal included" },
         Fn1 { name: "sin", f: mm::sin, r: rsin, dom: angle1e3, b: Bound::Abs(2.0e-3), dom_txt: "|x| <= 1000" },
         Fn1 { name: "cos", f: mm::cos, r: rcos, dom: angle1e3, b: Bound::Abs(2.0e-3), dom_txt: "|x| <= 1000" },
         Fn1 { name: "tan", f: mm::tan, r: rtan, dom: angle1e3, b: Bound::TanLike(6.0e-3), dom_txt: "|x| <= 1000, error relative to 1+tan^2" },
@@ -417,6 +418,41 @@ fn tex_case(tex: &Texture<Buf2<(u32, u32)>>, cu: f32, cv: f32, r: &mut Report) {
     }
 }
 
+/// Vector::normalize through this configuration's reciprocal square root (available in every configuration).
+fn norm_consumers(r: &mut Report) {
+    use re::math::vec::vec3;
+    // normalisation
+    let tol = if cfg!(feature = "cfg_mm") || cfg!(feature = "cfg_none") { 3.0e-3 } else { 1.0e-5 };
+    for i in 0..10_000u32 {
+        r.eval();
+        let f = |k: u32| ((i.wrapping_mul(2654435761).rotate_left(k) % 2001) as f32 - 1000.0) * 0.013 * (1u32 << (i % 12)) as f32;
+        let v = vec3::<_, ()>(f(3), f(11), f(19));
+        if v.len_sqr() == 0.0 { continue; }
+        match caught(|| v.normalize()) {
+            Err(p) => r.violation(format!("consumer-normalize-panic|{i}"), format!("[{CFG_NAME}] normalize({v:?}) panicked: {p}"), obj! {"kind" => "norm", "i" => i}),
+            Ok(n) => {
+                let l = (n.x() as f64).hypot(n.y() as f64).hypot(n.z() as f64);
+                if (l - 1.0).abs() > tol { r.violation(format!("consumer-normalize|{i}"), format!("[{CFG_NAME}] normalize({v:?}) has length {l}"), obj! {"kind" => "norm", "i" => i}); } else { r.nontrivial(); }
+            }
+        }
+    }
+    // ... and at the ends of the range: squared lengths that are subnormal (|v| ~ 1e-20) or close to overflow (|v| ~ 1e18).
+    // A subnormal squared length carries fewer bits, so only 1 % is asked - but a finite unit-ish vector it must be.
+    {
+        for (k, sc) in [1e-20f32, 3e-20, 2.5e-21, 1e-19, 1e-15, 1e15, 1e18, 1.5e18].iter().enumerate() { for d in [[3.0f32, 0.0, 4.0], [1.0, -2.0, 2.0], [0.0, 1.0, 0.0], [-0.6, 0.64, 0.48]] {
+            r.eval();
+            let v = vec3::<_, ()>(d[0] * sc, d[1] * sc, d[2] * sc);
+            match caught(|| v.normalize()) {
+                Err(p) => r.violation(format!("consumer-normalize-panic|extreme|{k}|{d:?}"), format!("[{CFG_NAME}] normalize({v:?}) panicked: {p}"), obj! {"kind" => "norm", "i" => 0u32}),
+                Ok(n) => {
+                    let l = (n.x() as f64).hypot(n.y() as f64).hypot(n.z() as f64);
+                    if !((l - 1.0).abs() <= 1e-2) { r.violation(format!("consumer-normalize|extreme|{sc:e}|{d:?}"), format!("[{CFG_NAME}] normalize({v:?}) = {n:?} has length {l}"), obj! {"kind" => "norm", "i" => 0u32}); } else { r.nontrivial(); }
+                }
+            }
+        }}
+    }
+}
+
 #[cfg(not(feature = "cfg_none"))]
 fn fp_consumers(r: &mut Report) {
     use re::math::angle::{degs, rads, turns};
@@ -446,37 +482,7 @@ fn fp_consumers(r: &mut Report) {
         }
     }}
     let _ = (degs(1.0), rads(1.0));
-    // normalisation
-    let tol = if cfg!(feature = "cfg_mm") { 3.0e-3 } else { 1.0e-5 };
-    for i in 0..10_000u32 {
-        r.eval();
-        let f = |k: u32| ((i.wrapping_mul(2654435761).rotate_left(k) % 2001) as f32 - 1000.0) * 0.013 * (1u32 << (i % 12)) as f32;
-        let v = vec3::<_, ()>(f(3), f(11), f(19));
-        if v.len_sqr() == 0.0 { continue; }
-        match caught(|| v.normalize()) {
-            Err(p) => r.violation(format!("consumer-normalize-panic|{i}"), format!("[{CFG_NAME}] normalize({v:?}) panicked: {p}"), obj! {"kind" => "norm", "i" => i}),
-            Ok(n) => {
-                let l = (n.x() as f64).hypot(n.y() as f64).hypot(n.z() as f64);
-                if (l - 1.0).abs() > tol { r.violation(format!("consumer-normalize|{i}"), format!("[{CFG_NAME}] normalize({v:?}) has length {l}"), obj! {"kind" => "norm", "i" => i}); } else { r.nontrivial(); }
-            }
-        }
-    }
-    // ... and at the ends of the range: squared lengths that are subnormal (|v| ~ 1e-20) or close to overflow (|v| ~ 1e18).
-    // A subnormal squared length carries fewer bits, so only 1 % is asked - but a finite unit-ish vector it must be.
-    // (micromath's inverse square root mis-seeds on subnormals - a third-party limitation like the two listed for C20 - and is left out)
-    if !cfg!(feature = "cfg_mm") {
-        for (k, sc) in [1e-20f32, 3e-20, 2.5e-21, 1e-19, 1e-15, 1e15, 1e18, 1.5e18].iter().enumerate() { for d in [[3.0f32, 0.0, 4.0], [1.0, -2.0, 2.0], [0.0, 1.0, 0.0], [-0.6, 0.64, 0.48]] {
-            r.eval();
-            let v = vec3::<_, ()>(d[0] * sc, d[1] * sc, d[2] * sc);
-            match caught(|| v.normalize()) {
-                Err(p) => r.violation(format!("consumer-normalize-panic|extreme|{k}|{d:?}"), format!("[{CFG_NAME}] normalize({v:?}) panicked: {p}"), obj! {"kind" => "norm", "i" => 0u32}),
-                Ok(n) => {
-                    let l = (n.x() as f64).hypot(n.y() as f64).hypot(n.z() as f64);
-                    if !((l - 1.0).abs() <= 1e-2) { r.violation(format!("consumer-normalize|extreme|{sc:e}|{d:?}"), format!("[{CFG_NAME}] normalize({v:?}) = {n:?} has length {l}"), obj! {"kind" => "norm", "i" => 0u32}); } else { r.nontrivial(); }
-                }
-            }
-        }}
-    }
+    norm_consumers(r);
     // clamp sampler
     for (w, h) in [(1u32, 1u32), (2, 3), (5, 4), (8, 8)] {
         let tex = Texture::from(Buf2::new_with((w, h), |x, y| (x, y)));
@@ -686,6 +692,8 @@ fn main() {
     tex_repeat(&mut r);
     #[cfg(not(feature = "cfg_none"))]
     fp_consumers(&mut r);
+    #[cfg(feature = "cfg_none")]
+    norm_consumers(&mut r);
     rep.merge(r);
     rep.sample(0, || obj! {"configuration" => CFG_NAME, "one_arg_pattern" => "0xc0000000 (-2.0)", "rem_euclid" => "(-6.6, 2.2)", "triangle_half_px" => vec![0, 0, 8, 0, 4, 2]});
     let rule = format!("configuration {CFG_NAME}: one-argument functions of the selected backend module over {} f32 bit patterns restricted to each function's stated domain, against f64 std references with per-(backend,function) bounds; rem_euclid/atan2/powf on two-argument lattices; consumers (tri_fill coverage on the half-pixel lattice vs exact edge functions, SamplerRepeatPot/SamplerClamp addressing, Angle::wrap, normalize) through the configuration's float alias. non-trivial = result differs from the input / negative operand / interior pixels exist.", if cfg.quick() { "2^22 boundary-dense" } else { "all 2^32" });
